@@ -110,6 +110,19 @@ TraceStepBeyond ==
   /\ Record(<<{"status"}, {}>>)
   /\ UNCHANGED <<cid, merr, ncases, pvars>>
 
+(* nfpm.Validate on the list of the case: an error iff the list cannot be planned for at least one registered packager *)
+(* (a collision may exist for one format only: ghost / doc / licence / readme are rpm's, entries may be addressed), and  *)
+(* the answer is the same on every call                                                                                   *)
+AllPackagers == {"deb", "rpm", "apk", "archlinux", "ipk"}
+TraceValidate ==
+  /\ IsEv("validate")
+  /\ LET e == Trace[l]
+         bad == \E pk \in AllPackagers : PlanOf([ctx EXCEPT !.pk = pk], todo)[1] # "ok"
+     IN Record(<<(IF e.errors \notin {0, e.calls} THEN {"validate_deterministic"} ELSE {})
+                 \cup (IF bad /\ e.errors # e.calls THEN {"validate_reports_every_format"} ELSE {})
+                 \cup (IF ~bad /\ e.errors # 0 THEN {"validate_accepts_plannable_list"} ELSE {}), {}>>)
+  /\ status' = "validated" /\ UNCHANGED <<cid, merr, ncases, ctx, todo, done, map>>
+
 TraceEnd ==
   /\ IsEv("endcase")
   /\ \/ status # "run"
@@ -127,7 +140,7 @@ TraceEof ==
   /\ TLCSet(1, l)
   /\ UNCHANGED <<cid, viol, drift, merr, ncases, pvars>>
 
-TraceNext == TraceCase \/ TraceStep \/ TraceStepBeyond \/ TraceEnd \/ TraceEof
+TraceNext == TraceCase \/ TraceStep \/ TraceStepBeyond \/ TraceValidate \/ TraceEnd \/ TraceEof
 
 TraceSpec == TraceInit /\ [][TraceNext]_<<pvars, tvars>>
 
